@@ -790,8 +790,8 @@ fn litmus() -> Vec<(&'static str, SchedCase)> {
         ("update || sync || get", SchedCase { cfg: base(Some(3), None), init: vec![ins(0, 1)], threads: vec![vec![ins(0, 3)], vec![TOp::Sync], vec![get(0)]], preempt: vec![], first: 0 }),
         ("insert; advance; sync || invalidate_all; get", SchedCase { cfg: base(None, None), init: vec![], threads: vec![vec![ins(0, 1), TOp::Advance { ns: 1 }, TOp::Sync], vec![TOp::InvalidateAll, get(0), get(0)]], preempt: vec![], first: 0 }),
         ("get; advance || invalidate_all; sync; get", SchedCase { cfg: base(None, None), init: vec![ins(0, 1), TOp::Sync, TOp::Advance { ns: 1 }], threads: vec![vec![get(0), TOp::Advance { ns: 1 }], vec![TOp::InvalidateAll, TOp::Sync, get(0), get(0)]], preempt: vec![], first: 0 }),
-        ("sync || invalidate; insert; get (old value at its ttl)", SchedCase { cfg: base(None, Some(SEC)), init: vec![ins(0, 1), TOp::Sync, TOp::Advance { ns: SEC }], threads: vec![vec![TOp::Sync], vec![TOp::Invalidate { k: 0 }, ins(0, 1), get(0)]], preempt: vec![], first: 0 }),
-        ("sync || update; get (old value at its ttl)", SchedCase { cfg: base(Some(2), Some(SEC)), init: vec![ins(0, 1), ins(1, 1), TOp::Sync, TOp::Advance { ns: SEC }], threads: vec![vec![TOp::Sync], vec![ins(0, 1), get(0)]], preempt: vec![], first: 0 }),
+        ("sync || invalidate; insert; get (old value at its ttl)", SchedCase { cfg: base(None, Some(SEC)), init: vec![ins(0, 1), TOp::Sync], threads: vec![vec![TOp::Sync], vec![TOp::Advance { ns: SEC }, TOp::Invalidate { k: 0 }, ins(0, 1), get(0)]], preempt: vec![], first: 0 }),
+        ("sync || update; get (old value at its ttl)", SchedCase { cfg: base(Some(2), Some(SEC)), init: vec![ins(0, 1), ins(1, 1), TOp::Sync], threads: vec![vec![TOp::Sync], vec![TOp::Advance { ns: SEC }, ins(0, 1), get(0)]], preempt: vec![], first: 0 }),
         ("insert; insert || sync; sync (capacity 1)", SchedCase { cfg: base(Some(1), None), init: vec![], threads: vec![vec![ins(0, 1), ins(1, 1), get(1)], vec![TOp::Sync, TOp::Sync]], preempt: vec![], first: 0 }),
         ("update; invalidate || sync || get", SchedCase { cfg: base(Some(2), None), init: vec![ins(0, 1), TOp::Sync], threads: vec![vec![ins(0, 2), TOp::Invalidate { k: 0 }], vec![TOp::Sync], vec![get(0)]], preempt: vec![], first: 0 }),
         ("invalidate_all || invalidate_all (clock advancing)", SchedCase { cfg: base(None, None), init: vec![ins(0, 1), TOp::Advance { ns: 1 }], threads: vec![vec![TOp::InvalidateAll], vec![TOp::Advance { ns: 1 }, ins(1, 1), TOp::Advance { ns: 1 }, TOp::InvalidateAll, get(1)]], preempt: vec![], first: 0 }),
